@@ -196,6 +196,11 @@ def run(index, rep, tier):
 
         thin_clone_rule(index, rep, "R08.5")
 
+    # ---- R08.8
+    with rep.section("R08.8"):
+        rep.rule("R08.8", "update_bipartitions is honoured by the pruning family: after the leaves are removed the whole tree is re-encoded when asked (C03 R03.4; forwarding the flag to suppress_unifurcations alone is not enough, it only drops the bipartitions of the nodes it splices out)")
+        rep.floor("R08.8", "borrowed obligations", 10, borrow(index, rep, "C03", {"R03.4"}, "R08.8"))
+
     # ---- R08.7
     with rep.section("R08.7"):
         rep.rule("R08.7", "every outdegree-one node goes: in Tree.suppress_unifurcations each node found with exactly one child is spliced out on every path (no skip between the single-child test and the re-linking); in Node.extract_subtree, with suppression requested, a node left with exactly one surviving child is always merged - no further condition")
@@ -404,6 +409,8 @@ def _eval_val(e, env):
         return env[norm(e)]
     if isinstance(e, ast.Constant) and e.value in (0, 0.0) and not isinstance(e.value, bool):
         return "0"
+    if isinstance(e, ast.Attribute) and e.attr in ("length", "edge_length"):
+        return "X(%s)" % norm(e)       # some other edge's length: neither the removed node's nor the child's
     if isinstance(e, ast.BinOp) and isinstance(e.op, ast.Add):
         a, b = _eval_val(e.left, env), _eval_val(e.right, env)
         if a is None or b is None:
